@@ -29,6 +29,7 @@ mod c15;
 mod c13;
 mod c08;
 mod c11;
+mod c12;
 
 use std::path::PathBuf;
 
@@ -79,6 +80,7 @@ fn main() {
     "c13" => c13::run(&o),
     "c08" => c08::run(&o),
     "c11" => c11::run(&o),
+    "c12" => c12::run(&o),
     "c05" => c05::run_stream(&o, "c05"),
     "c04" => c05::run_stream(&o, "c04"),
     s => { eprintln!("unknown stream {s}"); std::process::exit(2); }
